@@ -56,7 +56,7 @@
  * algorithm.
  */
 
-#define __M4RI_MUL_BLOCKSIZE MIN(((int)sqrt((double)(4 * __M4RI_CPU_L3_CACHE))) / 2, 2048)
+#define __M4RI_MUL_BLOCKSIZE MIN(((int)sqrt(4.0 * (double)__M4RI_CPU_L3_CACHE)) / 2, 2048)
 
 
 /**
